@@ -369,9 +369,8 @@ class Cursor:
                     ch = l["lit"]["v"]
                     return st.learn(o, lit_kind(ch)), (st.learn(o, "N") if ch == NL else st.copy())
             if k == "PRange":
-                lo, hi = lit_value(pat.get("lo") or {}), lit_value(pat.get("hi") or {})
-                if isinstance(lo, str) and isinstance(hi, str):
-                    inside = lo <= NL <= hi
+                inside = prange_contains(pat, NL)
+                if inside is not None:
                     return (st.copy() if inside else st.learn(o, "N")), (st.learn(o, "N") if inside else st.copy())
             raise Unextractable(f"pattern {k} on a char")
         if val and val[0] == "tag":
